@@ -176,6 +176,7 @@ class Scheduler:
         self.pick = 0
         self.in_op = [False] * self.nthreads
         self.atomic = [0] * self.nthreads
+        self.pgen_atomic = bool(plan['config'].get('pgen_atomic', False))
         self.outcomes = {}
         self.trace = []                  # (step, from, to, both_in_op)
         self.nontrivial_switches = 0
@@ -210,10 +211,19 @@ class Scheduler:
             # object addresses (a set of NFA states is iterated), their effect does not.  Code they
             # call outside pgen2 - the tokenizer run over the grammar text, which is where the first
             # token collection of a process is created - is traced and pre-emptible like any other.
-            t = 1 if (fn.startswith(self.base) and not fn.startswith(self.pgen)) else 0
+            if fn.startswith(self.pgen):
+                t = 2 if (self.pgen_atomic and code.co_name == 'generate_grammar') else 0
+            else:
+                t = 1 if fn.startswith(self.base) else 0
             self._traced[code] = t
         if t == 1:
             return self.local_trace
+        if t == 2:
+            # swarm knob `pgen_atomic`: the whole table generation (including the tokenizer run it
+            # triggers) is one step, so that "another thread runs a complete generation while this one
+            # is parked next to it" is reachable with ordinary quanta
+            self.atomic[self.cur] += 1
+            return self.atomic_trace
         return None
 
     def atomic_trace(self, frame, event, arg):
@@ -455,7 +465,7 @@ def make_plan(seed, tier='quick'):
         rng.shuffle(perm)                    # the scheduled child runs the calls in another order
     cfg = {'quantum': rng.choice([3, 10, 30, 30, 100, 100, 300, 300, 1000, 3000]),
            'warm': versions if warm else [], 'first': rng.randrange(nthreads), 'sequential': sequential, 'perm': perm,
-           'rounds': 1 if sequential else rng.choice([1, 1, 2, 3])}
+           'rounds': 1 if sequential else rng.choice([1, 1, 2, 3]), 'pgen_atomic': rng.random() < 0.5}
     return {'sim': 'threadsim', 'seed': seed, 'config': cfg, 'threads': threads, 'switches': [], 'more': []}
 
 
